@@ -34,6 +34,11 @@ def _build_model(kind):
     if kind == "dtrules":
         rules = [("assignment", {"equation": "B = 2*A"}, "dt"),
                  ("assignment", {"equation": "C = A + B + 1"}, "repeat")]
+    if kind == "counter":
+        m = Model(species=["A", "B", "C"], reactions=rxns, parameters=[("n", 0.0)], initial_condition_dict={"A": 3, "B": 1, "C": 0})
+        m.create_rule("assignment", {"equation": "_n = n + 1"}, rule_frequency="repeated")
+        m.create_rule("assignment", {"equation": "C = n"}, rule_frequency="repeated")
+        return m
     ic = {"A": 0, "B": 0, "C": 0} if kind == "inert" else {"A": 3, "B": 1, "C": 0}
     if kind == "inert":
         rxns.append((["A"], [], "massaction", {"k": 0.4}, "fixed", [], ["B"], {"delay": 0.7}))
@@ -182,7 +187,9 @@ def judge(rec, got):
             return "violation", "shape:volume0:" + sig, "initial volume %r, expected %r" % (got["volume0"], v0)
     if got.get("ic_changed"):
         return "violation", "model-changed-by-simulation:" + sig, "the model's initial condition changed during the call: %r" % (got["ic_changed"],)
-    if "second_first" in got and [float(x) for x in exp["first"]] != got["second_first"]:
+    # model "counter": its rule assigns a parameter from itself, so the model's parameter legitimately differs after a
+    # simulation (C08 sets such models aside); the second call is made, its first row is not compared
+    if "second_first" in got and o["model"] != "counter" and [float(x) for x in exp["first"]] != got["second_first"]:
         return "violation", "second-call-first-row:" + sig, "a second simulation of the same model starts at %r, the initial condition is %r" % (got["second_first"], exp["first"])
     if [float(x) for x in exp["first"]] != got["first"]:
         return "violation", "first-row:model=%s,sim=%s" % (o["model"], rec["sim"]), "first row %r, expected %r" % (got["first"], exp["first"])
